@@ -63,6 +63,10 @@ CHECKS = {
          "Fault enumeration over seeded scenarios: all 27 writable values (and the read-only ones, which must be refused before any command) with seeded raw data, initial lock byte locked / unlocked / odd, gear or device addressing, ignore_feedback / force_unlock options; each scenario runs fault-free and then once per (fault kind, command index): unit answers NO, echoes another byte, framing error on the echo, answer lost, DTR0 not advancing, unit stays locked, non-standard unlock value, bank shorter than the value, unrelated frame of another master before each command. Oracle: a normal return implies exactly those bytes at exactly those locations, nothing else changed in any bank or unit, lockable bank locked again; failures only through the documented memory/response exceptions; no failure without a fault.",
          "Trusted base: memory model of DESIGN.md appendix A.2; cell types taken from the library's declarations (layout is C11's business).",
          "deterministic co-simulation with single-fault enumeration over fault kinds x command indices", "4"),
+ "C07": ("busim", "exploration",
+         "Seeded search over populations and random-address histories: dali.sequences.Commissioning is stepped against 0-70 gear models (short address none / unique / duplicated) whose random-address draws come from plan-given adversarial streams (tiny address spaces, 0 / 0xFFFFFF, a unit re-drawing exactly what another unit draws, up to 6 forced clash rounds, then unique values), with every kind of permitted-address set, both readdress modes, dry run, and units that do not store or do not verify. Oracle on the models' final state: bounded number of commands, final TERMINATE, every unit out of initialisation, the right number of participants addressed from the permitted free set, addresses pairwise distinct and distinct from non-participants', non-participants and dry runs unchanged, ProgramShortAddressFailure for unconfirmed addresses.",
+         "Trusted base: initialisation state machine of DESIGN.md appendix A.1 (withdrawn gear still executes RANDOMISE / PROGRAM SHORT ADDRESS, the reading shared by the library's docstrings and its fake gear).",
+         "deterministic co-simulation of sequence and gear population with adversarial seeded randomness of the peers", "4"),
 }
 
 PLANNED = {}
